@@ -40,8 +40,9 @@ def ranks_of(Y):
     return [1] + [G.shape[2] for G in Y]
 
 
-def wellformed(Y, shape=None, finite=True):
-    """Return None if Y is a well-formed TT-tensor (optionally of the given shape), else a reason string."""
+def wellformed(Y, shape=None, finite=True, int_ok=False):
+    """Return None if Y is a well-formed TT-tensor (optionally of the given shape), else a reason string.
+    int_ok: integer core arrays are acceptable (results computed from integer-stored operands; their values are checked separately)."""
     if not isinstance(Y, list):
         return f"not a list but {type(Y).__name__}"
     if len(Y) == 0:
@@ -54,7 +55,7 @@ def wellformed(Y, shape=None, finite=True):
             return f"core {k} is {type(G).__name__}"
         if G.ndim != 3:
             return f"core {k} has ndim {G.ndim}"
-        if G.dtype.kind != 'f':
+        if G.dtype.kind != 'f' and not (int_ok and G.dtype.kind in 'iu'):
             return f"core {k} has dtype {G.dtype}"
         if G.shape[0] != prev:
             return f"core {k} left rank {G.shape[0]} != {prev}"
